@@ -36,6 +36,10 @@ func (o Op12) String() string {
 		return "SetSearch(u.Search())"
 	case "setter":
 		return spec.SetterNames[o.Setter] + "=" + quote(string(o.Value))
+	case "swap-list":
+		return "u.SetSearchParams(u.SearchParams().Clone())"
+	case "lend-list":
+		return "other.SetSearchParams(u.SearchParams())"
 	}
 	return "fetch"
 }
@@ -199,6 +203,11 @@ func Check12(c Case12, r *core.Rec) {
 					r.Failf("after %s: the query part of Href %s is %s but the list serializes as %s", hist12(c, i), quote(u.Href(false)), quote(qp), quote(s))
 					return
 				}
+				// ... and the list the URL hands out now is that list
+				if own := u.SearchParams().String(); own != s {
+					r.Failf("after %s: the handle serializes as %s but u.SearchParams() as %s (Query() %s)", hist12(c, i), quote(s), quote(own), quote(u.Query()))
+					return
+				}
 			}
 		case "setsearch", "setsearch-current":
 			v := string(o.Value)
@@ -233,6 +242,27 @@ func Check12(c Case12, r *core.Rec) {
 					return
 				}
 			}
+		case "swap-list":
+			// the URL is given a copy of its own list as its list: from now on that copy is "its
+			// SearchParams" (the handles obtained before are no longer and are dropped)
+			if len(handles) == 0 {
+				continue
+			}
+			sp := u.SearchParams().Clone()
+			u.SetSearchParams(sp)
+			handles = []*url.SearchParams{sp}
+			handleBeforeSetSearch = map[int]bool{0: !sawSetSearch}
+			r.Class("op:swap-list")
+		case "lend-list":
+			// another URL is handed this URL's list; u and its list must keep describing the same query
+			if len(handles) == 0 {
+				continue
+			}
+			if other, oerr := url.Parse("http://other.example/?z=26"); oerr == nil && other != nil {
+				other.SetSearchParams(u.SearchParams())
+				_ = other.Href(false)
+			}
+			r.Class("op:lend-list")
 		case "setter":
 			q0 := u.Query()
 			ApplySetter(u, o.Setter, string(o.Value))
@@ -337,6 +367,8 @@ func Gen12(t *rapid.T) Case12 {
 			c.Ops = append(c.Ops, genSP())
 		case k <= 7:
 			c.Ops = append(c.Ops, genSetSearch())
+		case k == 8 && rapid.IntRange(0, 1).Draw(t, "listop") == 0:
+			c.Ops = append(c.Ops, Op12{Kind: gen.Pick(t, "listopKind", []string{"swap-list", "lend-list"})})
 		default:
 			c.Ops = append(c.Ops, genSetter())
 		}
@@ -346,8 +378,8 @@ func Gen12(t *rapid.T) Case12 {
 
 var P12 = core.Register(core.Prop[Case12]{
 	ID: "C12",
-	Rule: "a start URL (special / non-special, with and without query and fragment, opaque path; a quarter of the cases obtained by resolving a reference against — or cloning — a URL whose SearchParams() was or was not called before) and 1..12 steps: fetch a SearchParams handle (at any point, repeatedly), a list operation through any live handle, SetSearch(v) (incl. '', '?', delimiters, '#', tab), another setter (hash, pathname, host, protocol, username, port); " +
-		"oracle, after every step: I1 after a list mutation Query / Search / the query part of Href equal the list's serialization; I2 after SetSearch every live handle and a fresh one equal the form-urlencoded parse of the new query (empty after clearing); I3 other setters leave the query and the list alone; I4 all live handles show the same expected list (Get/GetAll/Has for all names in play + String); " +
+	Rule: "a start URL (special / non-special, with and without query and fragment, opaque path; a quarter of the cases obtained by resolving a reference against — or cloning — a URL whose SearchParams() was or was not called before) and 1..12 steps: fetch a SearchParams handle (at any point, repeatedly), a list operation through any live handle, SetSearch(v) (incl. '', '?', delimiters, '#', tab), another setter (hash, pathname, host, protocol, username, port), SetSearchParams with a Clone of the URL's own list (which then is its list), another URL being handed this URL's list; " +
+		"oracle, after every step: I1 after a list mutation Query / Search / the query part of Href equal the list's serialization, and so does the list u.SearchParams() returns then; I2 after SetSearch every live handle and a fresh one equal the form-urlencoded parse of the new query (empty after clearing); I3 other setters leave the query and the list alone; I4 all live handles show the same expected list (Get/GetAll/Has for all names in play + String); " +
 		"non-trivial = the history has a SetSearch followed by a list mutation through a handle obtained before it; distinct by hash of the history",
 	Gen:   Gen12,
 	Check: Check12,
